@@ -10,6 +10,7 @@ import (
 	"github.com/crate-crypto/go-ipa/bandersnatch/fr"
 	"github.com/crate-crypto/go-ipa/banderwagon"
 	"github.com/crate-crypto/go-ipa/common"
+	"github.com/crate-crypto/go-ipa/common/verifhook"
 	"github.com/crate-crypto/go-ipa/ipa"
 )
 
@@ -322,6 +323,7 @@ func groupPolynomialsByEvaluationPoint(fs [][]fr.Element, powersOfR []fr.Element
 					groupedFs[z][j].Add(&groupedFs[z][j], &scaledEvaluation)
 				}
 			}
+			verifhook.Point("multiproof.group.send", start)
 			workersAggregations <- groupedFs
 		}(i*batchSize, (i+1)*batchSize)
 	}
